@@ -140,8 +140,6 @@ structure RateInv (s : State F) (now : Nat) : Prop where
   ts_le : ∀ e ∈ s.recvSet, e.ts ≤ now
   /-- the last doubling is not in the future -/
   doubled_le : ∀ t, s.mode = .slowStart (some t) → t ≤ now
-  /-- `2 * send_rate` fits a `u32` -/
-  rate_lt : 2 * s.sendRate ≤ u32max
 
 theorem RateInv.mono {s : State F} {now now' : Nat} (h : RateInv s now) (hle : now ≤ now') :
     RateInv s now' where
@@ -149,14 +147,12 @@ theorem RateInv.mono {s : State F} {now now' : Nat} (h : RateInv s now) (hle : n
   rtt_some := h.rtt_some
   ts_le := fun e he => Nat.le_trans (h.ts_le e he) hle
   doubled_le := fun t ht => Nat.le_trans (h.doubled_le t ht) hle
-  rate_lt := h.rate_lt
 
 theorem RateInv_init (ops : FloatOps F) (m now : Nat) : RateInv (init ops m) now where
   recvSet_ne := fun h => absurd rfl h
   rtt_some := fun tcp h => by cases h
   ts_le := fun e he => by cases he
   doubled_le := fun t h => by cases h
-  rate_lt := by show 2 * MSS ≤ u32max; decide
 
 theorem RateInv_sent {s : State F} {now : Nat} (h : RateInv s now) :
     RateInv (notifyFrameSent s now) now := by
@@ -170,14 +166,12 @@ theorem RateInv_sent {s : State F} {now : Nat} (h : RateInv s now) :
         simp only [List.mem_singleton] at he
         subst he
         exact Nat.le_refl _
-      doubled_le := fun t h' => by cases h'
-      rate_lt := h.rate_lt }
+      doubled_le := fun t h' => by cases h' }
   · exact {
       recvSet_ne := h.recvSet_ne
       rtt_some := h.rtt_some
       ts_le := h.ts_le
-      doubled_le := h.doubled_le
-      rate_lt := h.rate_lt }
+      doubled_le := h.doubled_le }
 
 /-- `handle_feedback` under the invariant: it returns, or the bisection ran out of fuel. -/
 theorem handleFeedback_notrap {ops : FloatOps F} {s : State F} {now : Nat} (fb : Feedback F)
@@ -211,12 +205,10 @@ theorem handleFeedback_notrap {ops : FloatOps F} {s : State F} {now : Nat} (fb :
       | none => exact Or.inl ⟨_, rfl⟩
       | some t =>
         have ht := h.doubled_le t hmode
-        have hr := h.rate_lt
         simp only []
         rw [if_neg (by omega)]
         split
-        · rw [if_neg (by omega)]
-          exact Or.inl ⟨_, rfl⟩
+        · exact Or.inl ⟨_, rfl⟩
         · exact Or.inl ⟨_, rfl⟩
 
 theorem nofeedbackExpired_notrap {ops : FloatOps F} {s : State F} {now : Nat}
@@ -281,7 +273,7 @@ theorem step_notrap {ops : FloatOps F} {s : State F} {now : Nat} (fb : Option (F
         · exact Or.inl ⟨_, rfl⟩
 
 theorem RateInv_handleFeedback {ops : FloatOps F} {s s' : State F} {now : Nat} {fb : Feedback F}
-    {r : Option F} (hmax : s.maxSendRate < 2^31)
+    {r : Option F}
     (hf : handleFeedback ops s now fb = .ok (s', r)) : RateInv s' now := by
   obtain ⟨set, L, md, x, hu, rfl, hb⟩ := handleFeedback_ok_cases hf
   obtain ⟨hne, hts, _⟩ := updOf_eq_ok hu
@@ -296,45 +288,31 @@ theorem RateInv_handleFeedback {ops : FloatOps F} {s s' : State F} {now : Nat} {
       | eqn _ _ => cases ht'
       | leave _ _ _ _ _ => cases ht'
       | first _ _ => cases ht'; exact Nat.le_refl _
-      | double _ _ _ _ _ _ => cases ht'; exact Nat.le_refl _
-      | keep t _ _ htn _ => cases ht'; exact htn
-    rate_lt := by
-      show 2 * min x s.maxSendRate ≤ u32max
-      rw [u32max_val]
-      omega }
+      | double _ _ _ _ _ => cases ht'; exact Nat.le_refl _
+      | keep t _ _ htn _ => cases ht'; exact htn }
 
 theorem RateInv_nofeedbackExpired {ops : FloatOps F} {s s' : State F} {now : Nat}
-    (h : RateInv s now) (hmax : s.maxSendRate < 2^31)
+    (h : RateInv s now)
     (hn : nofeedbackExpired ops s now = .ok s') : RateInv s' now := by
   obtain ⟨s1, hb, rfl⟩ := nofeedbackExpired_ok_cases hn
-  have hr := h.rate_lt
-  rw [u32max_val] at hr
   cases hb with
-  | keep _ => exact ⟨h.recvSet_ne, h.rtt_some, h.ts_le, h.doubled_le, h.rate_lt⟩
-  | halve ld _ =>
-    refine ⟨h.recvSet_ne, h.rtt_some, h.ts_le, h.doubled_le, ?_⟩
-    show 2 * max (s.sendRate / 2) MINIMUM_RATE ≤ u32max
-    rw [u32max_val]
-    simp only [MINIMUM_RATE]
-    omega
+  | keep _ => exact ⟨h.recvSet_ne, h.rtt_some, h.ts_le, h.doubled_le⟩
+  | halve ld _ => exact ⟨h.recvSet_ne, h.rtt_some, h.ts_le, h.doubled_le⟩
   | limit tcp rtt recv _ _ _ =>
-    refine ⟨fun _ => List.cons_ne_nil _ _, h.rtt_some, ?_, h.doubled_le, ?_⟩
-    · intro e he
-      change e ∈ [_] at he
-      simp only [List.mem_singleton] at he
-      subst he
-      exact Nat.le_refl _
-    · show 2 * min _ s.maxSendRate ≤ u32max
-      rw [u32max_val]
-      omega
+    refine ⟨fun _ => List.cons_ne_nil _ _, h.rtt_some, ?_, h.doubled_le⟩
+    intro e he
+    change e ∈ [_] at he
+    simp only [List.mem_singleton] at he
+    subst he
+    exact Nat.le_refl _
 
 theorem RateInv_step {ops : FloatOps F} {s s' : State F} {now : Nat} {fb : Option (Feedback F)}
-    {r : Option F} (h : RateInv s now) (hmax : s.maxSendRate < 2^31)
+    {r : Option F} (h : RateInv s now)
     (hs : step ops s now fb = .ok (s', r)) : RateInv s' now := by
   cases step_ok_cases hs with
   | idle _ _ => exact h
-  | feedback fb _ _ _ hf => exact RateInv_handleFeedback hmax hf
-  | expired _ _ _ _ _ hn => exact RateInv_nofeedbackExpired h hmax hn
+  | feedback fb _ _ _ hf => exact RateInv_handleFeedback hf
+  | expired _ _ _ _ _ hn => exact RateInv_nofeedbackExpired h hn
 
 /-- with converging bisection `step` never traps under the invariant. -/
 theorem step_notrap_conv {ops : FloatOps F} {s : State F} {now : Nat} (fb : Option (Feedback F))
@@ -348,11 +326,11 @@ theorem step_notrap_conv {ops : FloatOps F} {s : State F} {now : Nat} (fb : Opti
 /-! ### runs with non-decreasing time -/
 
 theorem applyEvent_RateInv {ops : FloatOps F} {s s' : State F} {t0 : Nat} {e : Event F}
-    (h : RateInv s t0) (hmax : s.maxSendRate < 2^31) (ht : t0 ≤ e.time)
+    (h : RateInv s t0) (ht : t0 ≤ e.time)
     (he : applyEvent ops s e = .ok s') : RateInv s' e.time ∧ s'.maxSendRate = s.maxSendRate := by
   rcases applyEvent_ok_cases he with ⟨now, rfl, rfl⟩ | ⟨now, fb, r, rfl, hs⟩
   · exact ⟨RateInv_sent (h.mono ht), (notifyFrameSent_sendRate s now).2⟩
-  · exact ⟨RateInv_step (h.mono ht) hmax hs, step_maxSendRate hs⟩
+  · exact ⟨RateInv_step (h.mono ht) hs, step_maxSendRate hs⟩
 
 theorem applyEvent_notrap {ops : FloatOps F} {s : State F} {t0 : Nat} (e : Event F)
     (h : RateInv s t0) (ht : t0 ≤ e.time) :
@@ -367,7 +345,7 @@ theorem applyEvent_notrap {ops : FloatOps F} {s : State F} {t0 : Nat} (e : Event
     · rw [herr]; exact Or.inr rfl
 
 theorem run_RateInv {ops : FloatOps F} {s s' : State F} {t0 : Nat} {evs : List (Event F)}
-    (h : RateInv s t0) (hmax : s.maxSendRate < 2^31) (hnd : nondecreasing t0 evs = true)
+    (h : RateInv s t0) (hnd : nondecreasing t0 evs = true)
     (hr : run ops s evs = .ok s') : ∃ t, t0 ≤ t ∧ RateInv s' t := by
   induction evs generalizing s t0 with
   | nil => cases hr; exact ⟨t0, Nat.le_refl _, h⟩
@@ -378,12 +356,12 @@ theorem run_RateInv {ops : FloatOps F} {s s' : State F} {t0 : Nat} {evs : List (
     | error t => rw [he] at hr; cases hr
     | ok s1 =>
       rw [he] at hr
-      obtain ⟨hinv, hmx⟩ := applyEvent_RateInv h hmax hnd.1 he
-      obtain ⟨t, ht, hinv'⟩ := ih hinv (by rw [hmx]; exact hmax) hnd.2 hr
+      obtain ⟨hinv, hmx⟩ := applyEvent_RateInv h hnd.1 he
+      obtain ⟨t, ht, hinv'⟩ := ih hinv hnd.2 hr
       exact ⟨t, Nat.le_trans hnd.1 ht, hinv'⟩
 
 theorem run_error_hang {ops : FloatOps F} {s : State F} {t0 : Nat} {evs : List (Event F)} {t : Trap}
-    (h : RateInv s t0) (hmax : s.maxSendRate < 2^31) (hnd : nondecreasing t0 evs = true)
+    (h : RateInv s t0) (hnd : nondecreasing t0 evs = true)
     (hr : run ops s evs = .error t) : t = .hang := by
   induction evs generalizing s t0 with
   | nil => cases hr
@@ -392,14 +370,14 @@ theorem run_error_hang {ops : FloatOps F} {s : State F} {t0 : Nat} {evs : List (
     rw [run] at hr
     rcases applyEvent_notrap (ops := ops) e h hnd.1 with ⟨s1, he⟩ | he
     · rw [he] at hr
-      obtain ⟨hinv, hmx⟩ := applyEvent_RateInv h hmax hnd.1 he
-      exact ih hinv (by rw [hmx]; exact hmax) hnd.2 hr
+      obtain ⟨hinv, hmx⟩ := applyEvent_RateInv h hnd.1 he
+      exact ih hinv hnd.2 hr
     · rw [he] at hr
       cases hr
       rfl
 
 theorem run_notrap_conv {ops : FloatOps F} {s : State F} {t0 : Nat} {evs : List (Event F)}
-    (hconv : BisectConverges ops) (h : RateInv s t0) (hmax : s.maxSendRate < 2^31)
+    (hconv : BisectConverges ops) (h : RateInv s t0)
     (hnd : nondecreasing t0 evs = true) : ∃ s', run ops s evs = .ok s' := by
   induction evs generalizing s t0 with
   | nil => exact ⟨s, rfl⟩
@@ -415,8 +393,8 @@ theorem run_notrap_conv {ops : FloatOps F} {s : State F} {t0 : Nat} {evs : List 
         exact ⟨s1, by rw [applyEvent, hs]⟩
     obtain ⟨s1, he⟩ := hok
     rw [he]
-    obtain ⟨hinv, hmx⟩ := applyEvent_RateInv h hmax hnd.1 he
-    exact ih hinv (by rw [hmx]; exact hmax) hnd.2
+    obtain ⟨hinv, hmx⟩ := applyEvent_RateInv h hnd.1 he
+    exact ih hinv hnd.2
 
 /-! ## `EqnInv`: the relation between rate, equation rate and receive-rate set that makes the
 no-feedback rule of the equation phase non-increasing -/
@@ -453,7 +431,7 @@ theorem EqnInv_handleFeedback {ops : FloatOps F} {s s' : State F} {now : Nat} {f
   | eqn _ _ => cases hmode; omega
   | leave _ _ _ _ _ => cases hmode; omega
   | first _ _ => cases hmode
-  | double _ _ _ _ _ _ => cases hmode
+  | double _ _ _ _ _ => cases hmode
   | keep _ _ _ _ _ => cases hmode
 
 theorem EqnInv_nofeedbackExpired {ops : FloatOps F} {s s' : State F} {now : Nat}
